@@ -545,6 +545,7 @@ func farSource(t *rapid.T, cl *caseLog, prop string, unitOnlyForced bool, like *
 	f.s = f.sc.new()
 	f.k = newSkModel(m)
 	n := rapid.IntRange(2, 12).Draw(t, "n")
+	var seenFar map[int]bool
 	cl.logf("%s far indexes %s producer=%s unitOnly=%v index range [%d,%d]", prop, f.spec, f.prodKind, f.unitOnly, d.minIdx, d.maxIdx)
 	for i := 0; i < n; i++ {
 		var idx int
@@ -563,6 +564,20 @@ func farSource(t *rapid.T, cl *caseLog, prop string, unitOnlyForced bool, like *
 		w := 1.0
 		if !f.unitOnly {
 			w = gen.LightWeight().Draw(t, "w")
+		} else {
+			// one unit per bin: a bin of weight 2 would be written with its count and make a paginated consumer
+			// allocate a page - and, with two such bins at both ends of the range, a page table of gigabytes
+			key := m.Index(math.Abs(v))
+			if v < 0 {
+				key = -key - 1<<40
+			}
+			if seenFar == nil {
+				seenFar = map[int]bool{}
+			}
+			if seenFar[key] {
+				continue
+			}
+			seenFar[key] = true
 		}
 		if err := f.s.AddWithCount(v, w); err != nil {
 			t.Fatalf("%s far: AddWithCount(%v,%v): %v", prop, v, w, err)
